@@ -1169,7 +1169,9 @@ for _comp, _v in (("MemeticA", "NSGA2MutatorASubsetGeneticAlgorithm"), ("Memetic
 ENTRY_SKIPPED = {
     "breed.prot.sel.UnconstrainedMultiObjectiveGenomicMating.MultiObjectiveGenomicMating":
         "legacy unconstrained protocol (needs a variance-matrix factory and a genetic map function); its only use of the generator is to hand "
-        "self.rng to its default optimisers, which are executed as UnconHill / UnconNSGA2SetGA; covered statically (C08_rng_components_explicit_partial)",
+        "self.rng to its default optimisers (constructor and rng setter, which re-points them as Generalized1NormGenomicSelection's does: executed as "
+        "G1NormSel with the setter route), which are executed as UnconHill / UnconNSGA2SetGA; covered statically (C08_rng_components_explicit_partial, "
+        "C08_repaired_sites_explicit lists its rng setter)",
 }
 FAMILY_BASES = tuple("%s%sSelectionProtocol" % (k, m) for k in ("Subset", "Binary", "Integer", "Real") for m in ("", "Mate"))
 UNIMPORTABLE_OK = ("pybrops.model.pmebvmat",)        # inconsistent MRO under this interpreter (no stochastic code; listed in DESIGN)
